@@ -72,6 +72,10 @@ type Dataset struct {
 	ModuleAux bool
 	// Many: the file carries a listpack of >= 65535 elements
 	Many bool
+	// Functions: function libraries (RDB type 245) in the file, in order (session 5 dimension audit)
+	Functions int
+	// Dims: the forced dimensions this file draws (coverage counters dim_*)
+	Dims []string
 }
 
 func (g *Gen) lenForm(n int) string {
@@ -851,6 +855,14 @@ type FileOpts struct {
 	// first key of a database
 	Reserved bool
 	MaxKeys  int
+	// Force (session 5 dimension audit): the file number; selects the forced degenerate-but-legal shapes
+	// (0 = none): the empty key "" as first key of a DB, an empty string value, database numbers above 15
+	// in every length form, an EMPTY database between two used ones, function libraries before the first
+	// database and between keys, LFU and LRU info on one key
+	Force    int
+	// NearExpiry: some keys expire 1..40 ms after Now - WHILE the replay runs when the clock advances
+	// with every request (between two bins of a split value, between the value and its PEXPIRE)
+	NearExpiry bool
 	Now      uint64 // replay clock (ms), to place expiries around it
 	MultiDB  bool
 	Versions []int
@@ -890,16 +902,61 @@ func (g *Gen) File(o FileOpts) *Dataset {
 	if (o.Huge || o.Many != "") && nk == 0 {
 		nk = 1
 	}
+	force := map[string]bool{}
+	if o.Force > 0 {
+		switch o.Force % 6 {
+		case 0:
+			force["emptykey"] = true
+		case 1:
+			force["emptyvalue"] = true
+		case 2:
+			force["highdb"] = true
+		case 3:
+			force["emptydb"] = true
+		case 4:
+			force["functions"] = true
+		case 5:
+			force["lfulru"] = true
+		}
+		if nk < 2 {
+			nk = 2
+		}
+		for d := range force {
+			ds.Dims = append(ds.Dims, d)
+		}
+	}
+	fnItem := func() {
+		t, _ := g.SE()
+		toks = append(toks, "fn", t)
+		ds.Functions++
+	}
+	if ver >= 10 && (force["functions"] || g.R.Chance(1, 10)) {
+		// function libraries are saved before the first database
+		for j := g.R.Range(1, 2); j > 0; j-- {
+			fnItem()
+		}
+	}
 	first := true
 	for i := 0; i < nk; i++ {
 		newDB := false
-		if first || (o.MultiDB && g.R.Chance(1, 4)) {
+		if force["functions"] && ver >= 10 && i == 1 {
+			fnItem() // (not where a server writes it, but the loader accepts the opcode anywhere)
+		}
+		if first || (o.MultiDB && g.R.Chance(1, 4)) || ((force["highdb"] || force["emptydb"] || force["emptykey"]) && i == 1) {
 			newDB = true
 			if !first || g.R.Chance(3, 4) {
 				if !first {
 					db += g.R.Range(1, 3)
 				} else if o.MultiDB && g.R.Chance(1, 3) {
 					db = g.R.Range(1, 3)
+				}
+				if force["highdb"] && i == 1 {
+					db = vfutil.Pick(g.R, []int{16, 63, 64, 255, 16383, 16384, 100000})
+				}
+				if force["emptydb"] && i == 1 {
+					// a database that is selected (and sized) but holds no key
+					toks = append(toks, "db", g.lenForm(db), strconv.Itoa(db), "resize", "a", "0", "a", "0")
+					db += g.R.Range(1, 3)
 				}
 				toks = append(toks, "db", g.lenForm(db), strconv.Itoa(db))
 				if g.R.Chance(2, 3) {
@@ -924,6 +981,11 @@ func (g *Gen) File(o FileOpts) *Dataset {
 		case 2: // exactly now
 			expAt = o.Now
 			exp = "ms:" + strconv.FormatUint(expAt, 10)
+		case 4, 5:
+			if o.NearExpiry {
+				expAt = o.Now + uint64(g.R.Range(1, 40))
+				exp = "ms:" + strconv.FormatUint(expAt, 10)
+			}
 		case 3: // seconds form
 			off := g.R.Range(5, 200)
 			if g.R.Bool() {
@@ -943,8 +1005,14 @@ func (g *Gen) File(o FileOpts) *Dataset {
 			freqN = g.R.Intn(256)
 			freq = strconv.Itoa(freqN)
 		}
+		if force["lfulru"] && i == 0 {
+			idleN, freqN = g.R.Range(1, 100000), g.R.Range(1, 255)
+			idle, freq = g.lenForm(idleN)+":"+strconv.Itoa(idleN), strconv.Itoa(freqN)
+		}
 		kt, k := g.Key()
-		if o.Reserved && ((newDB && g.R.Chance(1, 3)) || g.R.Chance(1, 20)) {
+		if force["emptykey"] && i == 1 && !g.used[fmt.Sprintf("%d/", db)] {
+			kt, k = "r"+g.lenForm(0)+":-", []byte{}
+		} else if o.Reserved && ((newDB && g.R.Chance(1, 3)) || g.R.Chance(1, 20)) {
 			kt, k = g.KeyReserved()
 		} else if o.MultiDB && len(ds.Keys) > 0 && g.R.Chance(1, 6) {
 			// the same key name in another source DB
@@ -970,6 +1038,20 @@ func (g *Gen) File(o FileOpts) *Dataset {
 		var val *Val
 		if o.Many != "" && i == 0 {
 			ot, val, kind = g.ObjKind(o.Many)
+		} else if o.NearExpiry && i == 0 {
+			// a hash TABLE of several pairs (split into bins under a small chunk threshold) that expires a few
+			// requests after the replay has started: BETWEEN two of its bins when the clock advances per request
+			for {
+				ot, val, kind = g.ObjKind("hash")
+				if len(val.Hash) >= 6 {
+					break
+				}
+			}
+			kind = "hash_expiring_between_bins"
+			expAt = o.Now + uint64(g.R.Range(3, 12))
+			exp = "ms:" + strconv.FormatUint(expAt, 10)
+		} else if force["emptyvalue"] && i == 0 {
+			ot, val, kind = "str r"+g.lenForm(0)+":-", &Val{Kind: "string", Str: []byte{}}, "str_empty"
 		} else if (o.Tagged && g.R.Chance(1, 3)) || (o.Streams && g.R.Chance(1, 2)) {
 			ot, val, kind = g.ObjKind("stream")
 		} else if o.Modules && g.R.Chance(1, 25) {
